@@ -75,6 +75,13 @@ func (e C17Env) EqStrs(a, b c17Stringer) bool {
 	e.lg("EqStrs(%q,%q)", a.String(), b.String())
 	return a.String() == b.String()
 }
+// CatT overloads + on two T with a string result; EqAny takes anything (nil included): true iff exactly one
+// operand is nil - never what the built-in == answers for a nil operand.
+func (e C17Env) CatT(a, b C17T) string { e.lg("CatT(%s,%s)", a.S, b.S); return a.S + "|" + b.S }
+func (e C17Env) EqAny(a, b interface{}) bool {
+	e.lg("EqAny(%v,%v)", a, b)
+	return (a == nil) != (b == nil)
+}
 func (e C17Env) LtV(a, b C17V) bool { e.lg("LtV(%d,%d)", a.N, b.N); return a.N < b.N }
 func (e C17Env) Wrap(v C17V) C17V   { e.lg("Wrap(%d)", v.N); return C17V{v.N * 2} }
 func (e C17Env) NoResult(a, b C17V) {}
@@ -98,14 +105,18 @@ type c17Cand struct {
 }
 
 var c17Cands = map[string][]c17Cand{
-	"+":  {{"AddV", c17V, c17V}, {"AddV2", c17V, c17V}, {"Fld", c17V, c17V}},
+	"+":  {{"AddV", c17V, c17V}, {"AddV2", c17V, c17V}, {"Fld", c17V, c17V}, {"CatT", c17T, c17T}},
 	"-":  {{"SubV", c17V, c17V}},
 	"*":  {{"MulVI", c17V, c17I}},
 	"<":  {{"LtV", c17V, c17V}},
-	"==": {{"EqIS", c17I, c17S}, {"EqTS", c17T, c17S}, {"EqStr", "Stringer", c17S}, {"EqStrR", c17S, "Stringer"}, {"EqStrs", "Stringer", "Stringer"}},
+	"==": {{"EqIS", c17I, c17S}, {"EqTS", c17T, c17S}, {"EqStr", "Stringer", c17S}, {"EqStrR", c17S, "Stringer"}, {"EqStrs", "Stringer", "Stringer"}, {"EqAny", "any", "any"}},
 }
 
-func c17Fits(param, ty string) bool { return param == ty || param == "Stringer" && ty == c17T }
+// c17Fits: the operand type is the parameter type, or the parameter is an interface the operand implements
+// (a nil operand fits every interface parameter).
+func c17Fits(param, ty string) bool {
+	return param == ty || param == "any" || param == "Stringer" && (ty == c17T || ty == "nil")
+}
 
 // c17Select is the reference overload resolution: first candidate in table order whose parameters fit.
 func c17Select(table map[string][]string, op, l, r string) string {
@@ -146,6 +157,8 @@ func (g *c17Gen) gen(ty string, d int) *c17X {
 			return &c17X{K: "leaf", Text: "#", Ty: ty}
 		}
 		switch ty {
+		case "nil":
+			return &c17X{K: "leaf", Text: "nil", Ty: ty}
 		case c17V:
 			return &c17X{K: "leaf", Text: []string{"A", "B", "C", "MV.k", "Vs[0]"}[g.pick(5, "vleaf")], Ty: ty}
 		case c17T:
@@ -160,7 +173,7 @@ func (g *c17Gen) gen(ty string, d int) *c17X {
 		}
 		return &c17X{K: "leaf", Text: []string{"Flag", "true", "false"}[g.pick(3, "bleaf")], Ty: ty}
 	}
-	if d <= 0 {
+	if d <= 0 || ty == "nil" {
 		return leaf()
 	}
 	bin := func(op, l, r string) *c17X { return &c17X{K: "bin", Op: op, Ty: ty, A: []*c17X{g.gen(l, d-1), g.gen(r, d-1)}} }
@@ -196,19 +209,29 @@ func (g *c17Gen) gen(ty string, d int) *c17X {
 			return &c17X{K: "len", Ty: ty, A: []*c17X{g.seq(d - 1)}}
 		case 4:
 			return &c17X{K: "count", Ty: ty, A: []*c17X{{K: "leaf", Text: "Vs", Ty: "[]V"}, g.body(c17V, c17B, d-1)}}
+		case 5:
+			// a map literal with a computed key: operators in the key and in the value
+			return &c17X{K: "maplen", Ty: ty, A: []*c17X{g.gen(c17S, d-1), g.gen([]string{c17V, c17B, c17I, c17S}[g.pick(4, "mvty")], d-1)}}
 		default:
 			return leaf()
 		}
 	case c17S:
-		if g.pick(3, "sk") == 0 {
+		switch g.pick(4, "sk") {
+		case 0:
 			return bin("+", c17S, c17S) // built-in string concatenation
+		case 1:
+			return bin("+", c17T, c17T) // a string only through the overload CatT
 		}
 		return leaf()
 	case c17T:
 		return leaf()
 	}
 	// bool
-	switch g.pick(13, "bk") {
+	switch g.pick(15, "bk") {
+	case 13:
+		return bin("==", []string{c17T, c17V, c17S, c17I}[g.pick(4, "nill")], "nil")
+	case 14:
+		return bin("==", "nil", []string{c17T, c17V, c17S, "nil"}[g.pick(4, "nilr")])
 	case 0:
 		return bin("==", c17I, c17S)
 	case 1:
@@ -300,6 +323,8 @@ func (x *c17X) print(table map[string][]string, callForm bool, nOver, nBuiltin *
 		return "(" + p(x.A[0]) + ")." + x.Text
 	case "len":
 		return "len(" + p(x.A[0]) + ")"
+	case "maplen":
+		return "len({(" + p(x.A[0]) + "): " + p(x.A[1]) + "})"
 	case "map", "filter", "all", "count":
 		return x.K + "(" + p(x.A[0]) + ", {" + p(x.A[1]) + "})"
 	case "arr":
@@ -455,6 +480,16 @@ func genC17(t *rapid.T, cfg *core.Config) *core.Case {
 		n := rapid.IntRange(1, len(perm)).Draw(t, "n"+op)
 		if op == "==" {
 			n = len(perm)
+			if rapid.Bool().Draw(t, "noEqAny") {
+				// without the catch-all candidate most == occurrences keep their built-in meaning
+				var rest []string
+				for _, f := range perm {
+					if f != "EqAny" {
+						rest = append(rest, f)
+					}
+				}
+				perm, n = rest, len(rest)
+			}
 		}
 		k.Table[op] = perm[:n]
 	}
